@@ -19,6 +19,9 @@
 (*  "members"  member event with `members` = [name, addr, tags]; observed: the    *)
 (*             script's standard input, split at raw newlines and raw tabs        *)
 (*  "payload"  user event / query with `payload`; observed: standard input        *)
+(*  "reload"   hist = the handlers the agent starts with, then configuration       *)
+(*             reloads (UpdateScripts) and events; observed per event: which      *)
+(*             handlers (reload step, index) ran and how often                    *)
 (*  "response" query; the script writes N bytes to `stream` and exits with        *)
 (*             `exit`; the node's QueryResponseSizeLimit is `limit`; observed:    *)
 (*             the reply packet on the transport                                  *)
@@ -59,6 +62,16 @@ TagStrings(tags) == IF Len(tags) = 0 THEN {<<>>}
 Min(x, y) == IF x < y THEN x ELSE y
 Responds(exit, N, limit) == exit = 0 /\ N > 0 /\ Min(N, MaxOut) + Overhead <= limit
 StdinOf(payload) == IF payload # <<>> /\ payload[Len(payload)] # NL THEN payload \o <<NL>> ELSE payload
+
+(* reload histories: hist = sequence of steps [op, specs, nilh, ev]; op = "init" (the handlers the agent starts with),  *)
+(* "update" (a configuration reload: UpdateScripts(newConfig.EventScripts()); nilh = 1: EventHandlers is nil, else a     *)
+(* possibly empty list) or "event".  The handlers in force at step j are those of the most recent init/update before j. *)
+LastCfg(hist, j) == CHOOSE u \in 1..(j - 1) : hist[u].op # "event" /\ \A w \in (u + 1)..(j - 1) : hist[w].op = "event"
+\* <<u, i, 1>>: handler i of the configuration given at step u ran exactly once
+ExpectedRuns(hist, j) == LET u == LastCfg(hist, j)
+                         IN { <<u, i, 1>> : i \in { h \in DOMAIN hist[u].specs : Match(hist[u].specs[h], hist[j].ev) } }
+RECURSIVE SeqOf(_)
+SeqOf(S) == IF S = {} THEN <<>> ELSE LET e == CHOOSE e \in S : TRUE IN <<e>> \o SeqOf(S \ {e})
 
 ------------------------------------------------------------------------------
 (* monitor *)
@@ -102,14 +115,21 @@ Clauses(i, o) ==
          IF Responds(i.exit, i.N, i.limit)
          THEN (IF o.sent = 1 /\ o.len = Min(i.N, MaxOut) /\ o.tail = 1 THEN {} ELSE {"C27_query_response"})
          ELSE (IF o.sent = 0 THEN {} ELSE {"C27_query_response_unexpected"})
+    [] i.ep = "reload" ->
+         \* the handlers that ran for an event = the handlers of the most recent update before it that match it, once each
+         IF \A j \in DOMAIN i.hist : i.hist[j].op = "event" =>
+               /\ { o.runs[j][m] : m \in DOMAIN o.runs[j] } = ExpectedRuns(i.hist, j)
+               /\ Len(o.runs[j]) = Cardinality(ExpectedRuns(i.hist, j))
+         THEN {} ELSE {"C27_runs_configured_handlers"}
 
 Tags(i) == {i.ep} \cup (IF i.ep = "filter" /\ Overlap(i.spec, i.ev) THEN {"overlap"} ELSE {})
+           \cup (IF i.ep = "reload" /\ \E j \in DOMAIN i.hist : i.hist[j].op = "update" /\ i.hist[j].specs = <<>> THEN {"to_empty"} ELSE {})
 
 ------------------------------------------------------------------------------
 (* input domain *)
 Rec(ep, spec, ev, ename, self, tags, lt, members, payload, exit, N, limit, stream) ==
   [a |-> "in", ep |-> ep, spec |-> spec, ev |-> ev, ename |-> ename, self |-> self, tags |-> tags, lt |-> lt,
-   members |-> members, payload |-> payload, exit |-> exit, N |-> N, limit |-> limit, stream |-> stream]
+   members |-> members, payload |-> payload, exit |-> exit, N |-> N, limit |-> limit, stream |-> stream, hist |-> <<>>]
 It(t, n) == [t |-> t, n |-> n]
 AnyEv == It("member-join", 0)
 
@@ -169,7 +189,22 @@ PayloadIn == { Rec("payload", <<>>, It(ty, 0), <<1>>, <<1>>, <<>>, 1, <<>>, p, 0
 ResponseIn == { Rec("response", <<>>, It("query", 0), <<1>>, <<1>>, <<>>, 1, <<>>, <<>>, x, n, l, s) :
                   x \in {0, 3}, n \in {0, 1, 500, 5000, 9000}, l \in {1024, 12000}, s \in {"stdout", "stderr", "both"} }
 
-Inputs == FilterIn \cup EnvIn \cup MembersIn \cup PayloadIn \cup ResponseIn
+\* reload histories (family "reload")
+St(op, specs, nilh, ev) == [op |-> op, specs |-> specs, nilh |-> nilh, ev |-> ev]
+H1 == <<It("user", 0)>>  H2 == <<It("*", 0)>>  H3 == <<It("user", 1)>>  H4 == <<It("member-join", 0)>>
+Cfg0 == { <<H1>>, <<H2, H3>> }
+Cfg1 == { <<<<>>, 1>>, <<<<>>, 0>>, << <<H4>>, 0>>, << <<H3>>, 0>> }       \* <<handler list, EventHandlers nil?>>
+Cfg2 == { <<<<>>, 0>>, << <<H2, H3>>, 0>> }
+REvents == { It("user", 1), It("member-join", 0) }
+Hists == { << St("init", c0, 0, AnyEv), St("event", <<>>, 0, e), St("update", c1[1], c1[2], AnyEv), St("event", <<>>, 0, e),
+              St("update", c2[1], c2[2], AnyEv), St("event", <<>>, 0, e) >> : c0 \in Cfg0, c1 \in Cfg1, c2 \in Cfg2, e \in REvents }
+         \cup { << St("init", c0, 0, AnyEv), St("update", c1[1], c1[2], AnyEv), St("update", c2[1], c2[2], AnyEv),
+                  St("event", <<>>, 0, e) >> : c0 \in Cfg0, c1 \in Cfg1, c2 \in Cfg2, e \in REvents }
+         \cup { << St("init", c0, 0, AnyEv), St("update", c1[1], c1[2], AnyEv), St("event", <<>>, 0, e),
+                  St("event", <<>>, 0, e) >> : c0 \in Cfg0, c1 \in Cfg1, e \in REvents }
+ReloadIn == { [Rec("reload", <<>>, AnyEv, <<>>, <<1>>, <<>>, 0, <<>>, <<>>, 0, 0, 0, "-") EXCEPT !.hist = hh] : hh \in Hists }
+
+Inputs == FilterIn \cup EnvIn \cup MembersIn \cup PayloadIn \cup ResponseIn \cup ReloadIn
 
 (* expected observation: used to check that the definition passes its own monitor *)
 Expected(i) ==
@@ -188,4 +223,5 @@ Expected(i) ==
     [] i.ep = "payload" -> [count |-> 1, stdin |-> StdinOf(i.payload)]
     [] i.ep = "response" -> [count |-> 1, sent |-> IF Responds(i.exit, i.N, i.limit) THEN 1 ELSE 0,
                              len |-> IF Responds(i.exit, i.N, i.limit) THEN Min(i.N, MaxOut) ELSE 0, tail |-> 1]
+    [] i.ep = "reload" -> [runs |-> [j \in DOMAIN i.hist |-> IF i.hist[j].op = "event" THEN SeqOf(ExpectedRuns(i.hist, j)) ELSE <<>>]]
 =============================================================================
